@@ -276,6 +276,20 @@ class Interp:
         f = e.func
         args = [self.ev(a) for a in e.args]
         kw = {k.arg: self.ev(k.value) for k in e.keywords}
+        if isinstance(f, ast.Attribute) and isinstance(f.value, ast.Name) and f.value.id not in self.env:
+            from .core import namespace_method
+            hfn = namespace_method(self.fn, f.value.id, f.attr)
+            if hfn is not None:
+                names = [a.arg for a in hfn.args.args]
+                bound = dict(zip(names, args))
+                bound.update(kw)
+                for a, d in zip(reversed(hfn.args.args), reversed(hfn.args.defaults)):
+                    if a.arg not in bound:
+                        bound[a.arg] = self.ev(d)
+                sub = Interp(hfn, [bound[n] for n in names], {k: v for k, v in self.env.items() if isinstance(v, ast.FunctionDef)})
+                r = sub.run()
+                self.asserts.extend(sub.asserts)
+                return r
         if isinstance(f, ast.Attribute):
             recv = self.ev(f.value)
             name = f.attr
@@ -287,6 +301,13 @@ class Interp:
                 return tuple(args[0])
             if f.id == "len":
                 return len(args[0])
+            from .core import _NAMEDTUPLES
+            if f.id in _NAMEDTUPLES:  # a private NamedTuple of the package is the tuple of its fields
+                fields = _NAMEDTUPLES[f.id]
+                vals = dict(zip(fields, args))
+                vals.update(kw)
+                if set(vals) == set(fields):
+                    return tuple(vals[k] for k in fields)
             from .core import module_lookup
             hfn = self.env.get(f.id) if isinstance(self.env.get(f.id), ast.FunctionDef) else module_lookup(self.fn, f.id)
             if f.id in ("int", "bool") and len(args) == 1:
@@ -295,6 +316,9 @@ class Interp:
                 names = [a.arg for a in hfn.args.args]
                 bound = dict(zip(names, args))
                 bound.update(kw)
+                for a, d in zip(reversed(hfn.args.args), reversed(hfn.args.defaults)):
+                    if a.arg not in bound:
+                        bound[a.arg] = self.ev(d)
                 sub = Interp(hfn, [bound[n] for n in names], {k: v for k, v in self.env.items() if isinstance(v, ast.FunctionDef)})
                 r = sub.run()
                 self.asserts.extend(sub.asserts)
